@@ -186,7 +186,7 @@ def run(pid, tier, seed, replay=None):
             nsim += len(got)
             progs += got
             sources += ["tlc"] * len(got)
-        V.extra["programs"] = {"fixed": len(mc.FIXED), "seeded": nrand, "tlc_generated": nsim}
+        V.extra["program_counts"] = {"fixed": len(mc.FIXED), "seeded": nrand, "tlc_generated": nsim}
         seq_execs, st = run_seq(progs, pid + "_seq")
         merge(status, st)
         wit_execs, st = run_seq(mc.MVC_WITNESS, pid + "_mvc")
